@@ -13,6 +13,7 @@ import (
 	"sort"
 	"strconv"
 	"strings"
+	"syscall"
 	"testing"
 	"time"
 
@@ -115,6 +116,14 @@ func Main(t *testing.T) {
 		t.Skip("VF_SPEC not set")
 	}
 	slog.SetDefault(slog.New(slog.DiscardHandler))
+	// Code under test may leak a descriptor per execution (the logging component never closes a
+	// replaced file logger): with hundreds of thousands of executions per worker the default limit is
+	// not enough. Raising it needs privileges; without them the harnesses report a cap instead.
+	for _, n := range []uint64{1 << 20, 1 << 18, 1 << 16} {
+		if syscall.Setrlimit(syscall.RLIMIT_NOFILE, &syscall.Rlimit{Cur: n, Max: n}) == nil {
+			break
+		}
+	}
 	b, err := os.ReadFile(specPath)
 	if err != nil {
 		t.Fatal(err)
